@@ -19,7 +19,12 @@ SPEC = {
         "parseDurationMatch / matchRegex (overlay build of the current tree) vs Model/Match.v",
         "oracles (universally quantified in the theorems, tabulated per case by the harness): Go regexp on \"^(?:p)$\" compiled independently of "
         "pint's matchRegex, prometheus model.ParseDuration",
-        "binary oracle: per-block marker checks (label \"marker_k\" {required=true}) in pint lint / pint ci runs vs a Go reference evaluator of docs/configuration.md",
+        "binary oracle: per-block marker checks (label \"marker_k\" {required=true}) in pint lint / pint ci runs (added / modified / unmodified files) vs a Go reference "
+        "evaluator of docs/configuration.md; every second scenario is FOCUSED: each rule block tests one condition kind (rotating over the nine, in match and ignore role, "
+        "sometimes with a second condition or an explicit state) on files where every rule sees >= 2 group labels, >= 2 own labels, >= 2 annotations; "
+        "key/value patterns include ones matching several names and proper substrings; duration conditions use every operator against the durations the rules use; "
+        "rule for/keep_firing_for values that are not durations occur; measured per-condition verdict histogram in the evidence",
+        "PRule cases: the match/ignore lists stored by parseRule/newParsedRule (real code) = (ignore as decoded, default_rule_match of match) for ci / lint / no command",
     ],
     "assumptions": [
         "wf_labels: label maps have unique keys (YAML mappings; the strict parser rejects duplicates)",
@@ -38,7 +43,11 @@ MANIFEST = {
     "text": "Theorems (Coq, no axioms, for every behaviour of the regexp and duration libraries): the model of Match.IsMatch (nine conditions in "
             "code order), isMatch (ignore dominates, any match), defaultRuleMatch/defaultMatchStates, stateMatches (generated table), "
             "durationMatch and Entry.Labels equals the documented meaning doc_applies written from docs/configuration.md; state defaults; "
-            "label conditions see group labels; six duration operators = Z order. Evaluating labels leaves the group's label map "
+            "label conditions see group labels; six duration operators = Z order. Each condition ON ITS OWN (a block setting only that condition): command iff the command "
+            "is the running one; path/name iff the whole string matches; kind selects exactly the alerting / recording rules; state words mean the ChangeType constants; "
+            "annotation iff alerting rule with an annotation pair matching key and value; label iff some effective (group + own) label pair matches; for/keep_firing_for iff "
+            "alerting rule with the field whose duration compares as the operator says. The parse-error clauses are stated explicitly: a rule value that is not a duration "
+            "satisfies every duration condition, a validated condition is used exactly as parsed, an unparsable keep_firing_for condition reads as duration 0 (operator '=' when unknown). Evaluating labels leaves the group's label map "
             "untouched (full theorem after fix dac9e2b; the pre-fix aliasing is kept as a refuted regression statement with its exact partial guard). "
             "Tied by differential execution of the real isMatch/Entry.Labels/parseDurationMatch/matchRegex on generated configs x entries x command "
             "(regexp anchoring tested on a pattern grammar with alternations) and by per-block marker checks on the real binary against a reference evaluator.",
